@@ -692,6 +692,12 @@ pub fn run_c01(ctx: &mut Ctx) {
                 // text over the alphabet (round trip stream)
                 let n = ctx.rng.random_range(0..12);
                 (0..n).map(|_| CHARS.chars().nth(ctx.rng.random_range(0..CHARS.chars().count())).unwrap()).collect()
+            } else if i % 100 == 3 {
+                // a long text (lengths around powers of two)
+                {
+                    let maxlen = [1030usize, 4100][ctx.rng.random_range(0..2)];
+                    tok_text(ctx, maxlen, &specials)
+                }
             } else {
                 tok_text(ctx, 10, &specials)
             };
@@ -936,6 +942,21 @@ pub fn run_bpe(ctx: &mut Ctx, c03: bool) {
                 let s = if ctx.rng.random_bool(0.15) { tok_text(ctx, 8, &c.tokens) } else { bpe_text(ctx, letters, 14) };
                 let ign = ctx.rng.random_bool(0.7);
                 emit_tok(ctx, "bpetok", &kind, &c, &s, ign, false);
+            }
+            // long inputs (block-wise / parallel processing would cut words or drop white space at a block border):
+            // a few thousand bytes of short words, lengths around powers of two
+            if ctx.rng.random_range(0..if ctx.thorough { 4 } else { 6 }) == 0 {
+                let target = [1000usize, 4090, 4100, 8195, 12300][ctx.rng.random_range(0..5)] + ctx.rng.random_range(0..9);
+                let mut s = String::new();
+                while s.len() < target {
+                    let l = ctx.rng.random_range(1..=6);
+                    for _ in 0..l {
+                        s.push_str(letters[ctx.rng.random_range(0..letters.len() - 1)]);
+                    }
+                    s.push_str(if ctx.rng.random_range(0..10) == 0 { "  " } else { " " });
+                }
+                let s = s.trim_end().to_string();
+                emit_tok(ctx, "bpetok", &kind, &c, &s, true, false);
             }
             let m = ctx.rng.random_range(0..8);
             let hi = 256 + t.len() as u64 + 8;
